@@ -6,7 +6,7 @@ from collections import Counter
 from hypothesis import strategies as st
 
 from vlib.core import Outcome, Part
-from vlib import gen_hed, hedenv, xmlschema
+from vlib import gen_hed, gen_schema, hedenv, xmlschema
 
 PROPERTY = "C13"
 LEVEL = "exploration"
@@ -287,6 +287,83 @@ def oracle_refusal(case):
 
 
 # ------------------------------------------------------------------------------------------------------------
+# generated libraries (served from a folder): clashes that no bundled pair has - the same short name at different paths
+_CUSTOM = {}
+
+
+def custom_folder():
+    """Four tiny libraries partnered with 8.2.0: alib Alpha-things/Gadget, blib Beta-things/Gadget (same short name,
+    other path), clib Gamma-things/Widget (no clash), dlib Alpha-things/Gadget (same path as alib)."""
+    import os
+    import tempfile
+    if "dir" not in _CUSTOM:
+        d = tempfile.mkdtemp(prefix="c13_libs_", dir=os.environ.get("HOME"))
+
+        def prune(parent):
+            for n in list(parent.findall("node")):
+                if gen_schema.attr_elems(n, "inLibrary"):
+                    parent.remove(n)
+                else:
+                    prune(n)
+        for lib, top, leaf in (("alib", "Alpha-things", "Gadget"), ("blib", "Beta-things", "Gadget"),
+                               ("clib", "Gamma-things", "Widget"), ("dlib", "Alpha-things", "Gadget")):
+            r = gen_schema.clone("testlib_2.0.0")
+            r.set("library", lib)
+            r.set("version", "1.0.0")
+            prune(r.find("schema"))
+            t = gen_schema.new_node(top, "top node")
+            gen_schema.add_attr(t, "inLibrary", lib)
+            leaf_node = gen_schema.new_node(leaf, "leaf")
+            gen_schema.add_attr(leaf_node, "inLibrary", lib)
+            t.append(leaf_node)
+            r.find("schema").append(t)
+            with open(os.path.join(d, f"HED_{lib}_1.0.0.xml"), "w", encoding="utf-8") as fp:
+                fp.write(gen_schema.to_string(r))
+        _CUSTOM["dir"] = d
+    return _CUSTOM["dir"]
+
+
+CUSTOM_CLASH = {frozenset(("alib", "blib")), frozenset(("alib", "dlib")), frozenset(("blib", "dlib"))}
+
+
+def make_custom_enum():
+    libs = ["alib", "blib", "clib", "dlib"]
+
+    def enum(shard, nshards):
+        def gen():
+            for a in libs:
+                for b in libs:
+                    for pfx in ("", "qq:"):
+                        yield (a, b, pfx)
+        return itertools.islice(gen(), shard, None, nshards)
+    return enum
+
+
+def oracle_custom(case):
+    from hed.schema import load_schema_version
+    from hed.errors.exceptions import HedFileError
+    a, b, pfx = case
+    out = Outcome(nontrivial=True)
+    expect = "refuse" if a == b or frozenset((a, b)) in CUSTOM_CLASH else "load"
+    out.classes = ("expect:" + expect, "custom-libraries")
+    spec = [f"{pfx}{a}_1.0.0", f"{pfx}{b}_1.0.0"]
+    try:
+        load_schema_version(spec, xml_folder=custom_folder())
+        got = "load"
+    except HedFileError:
+        got = "refuse"
+    except Exception as exc:  # noqa
+        from vlib.core import crash_signature
+        return out.bad(crash_signature(exc, "load-raises-other") or f"load-raises-other:{type(exc).__name__}",
+                       f"{spec}: {exc!r}")
+    if got != expect:
+        kind = "same-library" if a == b else ("same-path" if {a, b} == {"alib", "dlib"} else
+                                              ("other-path" if expect == "refuse" else "no-clash"))
+        out.bad(f"custom-library-pair-{got}-expected-{expect}:{kind}", f"{spec}")
+    return out
+
+
+# ------------------------------------------------------------------------------------------------------------
 REPREFIX_TEXTS = ["(Event-context, (Red)), (Event-context, (Blue)), Green", "Red, Blue", "Qzx-unknown, Red",
                   "(Onset, Def/Nope)", "Red, Red"]
 
@@ -361,4 +438,5 @@ def parts(tier):
     return [Part("differential", oracle_differential, strategy=differential_case(names), n=1500 if q else 160000),
             Part("vocabulary", oracle_vocab, enumerate_fn=make_vocab_enum(libs), exhaustive=True),
             Part("refusal", oracle_refusal, enumerate_fn=make_refusal_enum(), exhaustive=True),
+            Part("custom-libraries", oracle_custom, enumerate_fn=make_custom_enum(), exhaustive=True),
             Part("reprefix", oracle_reprefix, strategy=reprefix_case(), n=24 if q else 1600, sharded=True)]
